@@ -53,7 +53,7 @@ var pureExternalPrefixes = []string{
 	"github.com/ethereum/go-ethereum/common.", "(github.com/ethereum/go-ethereum/common.", "github.com/ethereum/go-ethereum/crypto.",
 	"github.com/ethereum/go-ethereum/common/hexutil.", "(*github.com/ethereum/go-ethereum/common.", "math/rand.", "os.Getenv", "sort.Search",
 	"(*github.com/tendermint/tendermint/abci/types.", "(github.com/tendermint/tendermint/abci/types.", "(*math/big.Float).", "math/big.NewFloat",
-	"github.com/ethereum/go-ethereum/rlp.", "unicode/utf8.", "regexp.", "(*regexp.",
+	"github.com/ethereum/go-ethereum/rlp.", "unicode/utf8.", "regexp.", "(*regexp.", "github.com/tendermint/tendermint/rpc/core.",
 }
 
 func isPureExternal(name string) bool {
